@@ -27,6 +27,13 @@ pub enum Rec {
         action: TriggerAction,
         time: Instant,
     },
+    /// an action timer ("action") or internal timer ("timer") of a machine fired
+    Fired {
+        client: bool,
+        machine: usize,
+        time: Instant,
+        what: &'static str,
+    },
     /// a decision of `pick_next`: "aggregate", "blocking", "queue", "timer", "action"
     Pick { what: &'static str, client: bool },
     /// the blocking state of a side after an action timer fired a BlockOutgoing
